@@ -34,12 +34,38 @@ def gen(seed, idx, tier):
     if screening and rnd.random() < 0.25:
         scn["options"]["max_iterations_per_step"] = rnd.choice([1, 2, 3, 5, 10, 20])
         scn["meta"]["nonconv"] = True
+    elif screening and rnd.random() < 0.3:
+        # a cancellation in the middle of the screening iterations of a step: the final frame must
+        # hold the last ACCEPTED (self-consistent) state, not a half-iterated one
+        scn["options"]["save_every"] = 100
+        scn["options"]["pause_on_interrupt"] = False
+        scn["faults"] = [f for f in scn.get("faults", []) if f["kind"] == "refuse"] + [
+            {"kind": "sigint", "at": {"point": "line", "func": rnd.choice(["get_induced_vector_potential", "get_induced_vector_potential", "solve_for_observables"]), "ordinal": rnd.randint(20, 600), "stage": "S"}}
+        ]
+        scn["meta"]["cancel_in_screening"] = True
     return scn
 
 
 def post(sim, h):
+    import numpy as np
+
+    from .. import recorder
+
     V = []
     o = sim.scn["options"]
+    for st, step, name in sim.alias_violations[:1]:
+        V.append(Violation("state-mutated-in-place", f"update {st}{step} modified the array of '{name}' it was handed (the last accepted state held by the runner) in place", quantity=name))
+    # every recorded frame holds an accepted state (bitwise the state returned by that many updates)
+    for fr in h.frames:
+        if not fr["completed"] or fr["stage"] != "S":
+            continue
+        exp = recorder.state_after(h, fr["step"])
+        if exp is None:
+            continue
+        bad = [n for n in fr["data"] if n in exp and exp[n] is not None and not np.array_equal(np.asarray(fr["data"][n]), np.asarray(exp[n]))]
+        if bad:
+            V.append(Violation("frame-vs-accepted-state", f"frame of step {fr['step']} differs from the accepted state after {fr['step']} updates in {bad}", step=fr["step"], cancelled=bool(h.fire_info)))
+            break
     if not o.get("include_screening"):
         return V
     budget = o.get("max_iterations_per_step", 1000)
@@ -68,7 +94,7 @@ def run(scn):
         scn,
         [ck],
         lambda h, c: ck.accepted_steps >= 2 or h.probes.get("screening_nonconvergence", 0) > 0,
-        lambda h: (scn["options"].get("screening_tolerance"), scn["meta"].get("nonconv", False), ck.accepted_steps >= 5),
+        lambda h: (scn["options"].get("screening_tolerance"), scn["meta"].get("nonconv", False), scn["meta"].get("cancel_in_screening", False), ck.accepted_steps >= 5),
         extra=lambda h, c: {"iters": ck.iters, "accepted": ck.accepted_steps, "max_kernel_err": ck.max_kernel_err, "max_final_ratio": ck.max_final_err_ratio},
         post=post,
     )
